@@ -871,7 +871,7 @@ fn drive_lengths(sink: &mut Sink, _rng: &mut Rng, n: usize) {
         lens.extend([255, 256, 257, 1023, 1024]);
     }
     for &l in &lens {
-        for last in ["a", "A", " ", "é", "%41"] {
+        for last in ["a", "A", " ", "é", "%41", "%2F", "/%2e%2E"] {
             let body = |unit: &str| -> String {
                 if l == 0 {
                     String::new()
@@ -901,7 +901,7 @@ fn drive_lengths(sink: &mut Sink, _rng: &mut Rng, n: usize) {
                 parse_all(sink, &s);
             }
             // the same through the builder (generic and typed)
-            if last != "%41" {
+            if !last.contains('%') {
                 for (t, typed) in [("t", false), ("nuget", true), ("maven", true)] {
                     if typed && !cfg!(feature = "pt") {
                         continue;
